@@ -2,7 +2,7 @@
    ExtrOcamlBasic only: Z, positive, nat stay the extracted inductive types. *)
 Require Extraction.
 Require Import ExtrOcamlBasic.
-From CCTZ Require Import Base SrcConstants Cal CivilImpl FixedImpl PosixImpl PosixSpec.
+From CCTZ Require Import Base SrcConstants Cal CivilImpl FixedImpl PosixImpl PosixSpec ZoneLoad ZoneImpl ZoneSpec.
 Extraction Language OCaml.
 Extraction "model.ml"
   Z.add Z.mul Z.sub Z.opp Z.div_eucl Z.compare Z.of_nat Z.to_nat
@@ -12,4 +12,6 @@ Extraction "model.ml"
   construct64 convert64 plus64 minus64 difference64 lt64 eq64
   stream64 get_weekday64 get_yearday64 next_weekday64 prev_weekday64 civil_max64 civil_min64
   FixedOffsetFromName FixedOffsetToName FixedOffsetToAbbr fixed_name_spec fixed_abbr_spec fixed_from_spec
-  ParsePosixSpec posix_spec nul_free ptz_determined.
+  ParsePosixSpec posix_spec nul_free ptz_determined
+  load_bytes load_name reset_to_builtin_utc break_time make_time convert_cs next_transition prev_transition
+  min64 max64 big_bang parse_ast szone_of wf_ast spec_lookup spec_civil spec_convert all_changes spec_transition spec_next spec_prev.
